@@ -69,7 +69,9 @@ REQUIRED_TAGS = ['op=insert', 'op=refine', 'op=raise', 'op=lower', 'op=reverse',
                  'pardim=1', 'pardim=2', 'pardim=3', 'rational', 'periodic-dir', 'len>=8', 'pool>=3', 'err:ValueError',
                  'ctor=valid-open', 'ctor=valid-periodic', 'ctor=decreasing', 'ctor=too-few', 'ctor=order<=0',
                  'ctor=periodic-mismatch', 'ctor=within-tol', 'ctor=beyond-tol', 'ctor=gap', 'wf=true',
-                 'stream=small-periodic', 'small-periodic:n<p+k', 'small-periodic:n+1<=p+k']
+                 'stream=small-periodic', 'small-periodic:n<p+k', 'small-periodic:n+1<=p+k',
+                 'insert=periodic', 'insert=open', 'split=periodic', 'split=open', 'raise=open', 'raise=periodic', 'raise:pardim=1',
+                 'raise:pardim=2', 'lower=open', 'append=equal-orders', 'append=unequal-orders', 'identical=unequal-orders']
 ASSUMPTIONS = ['histories are generated with the real library in the loop (state-aware choice of arguments); the generated '
                'specs are concrete and replayable']
 
@@ -470,15 +472,45 @@ def _flags_before(sp, pool, ins):
     return fl
 
 
+def _pre_info(pool, ins):
+    """Which variant of the operation the call is (decided on the state before it) - coverage tags only."""
+    k, i = ins['op'], ins['i']
+    if not 0 <= i < len(pool):
+        return []
+    o = pool[i]
+    d = ins.get('dir')
+    out = []
+    try:
+        if k in ('insert', 'split', 'reverse', 'reparam') and isinstance(d, int) and 0 <= d < len(o.bases):
+            out.append('%s=%s' % (k, 'periodic' if o.bases[d].periodic >= 0 else 'open'))
+        if k in ('raise', 'refine', 'lower'):
+            out.append('%s=%s' % (k, 'periodic' if any(b.periodic >= 0 for b in o.bases) else 'open'))
+            out.append('%s:pardim=%d' % (k, o.pardim))
+        if k == 'append' and 0 <= ins['j'] < len(pool):
+            out.append('append=%s-orders' % ('equal' if o.order(0) == pool[ins['j']].order(0) else 'unequal'))
+        if k == 'identical' and 0 <= ins['j'] < len(pool):
+            c = pool[ins['j']]
+            out.append('identical:pardim=%d' % o.pardim)
+            if any(a.order != b.order for a, b in zip(o.bases, c.bases)):
+                out.append('identical=unequal-orders')
+            if any(a.periodic != b.periodic for a, b in zip(o.bases, c.bases)):
+                out.append('identical=unequal-periodicity')
+    except Exception:  # noqa: BLE001
+        pass
+    return out
+
+
 def _run(sp, s, with_extras=False, stop_at_failure=False):
     """Returns {'init': [...], 'steps': [...], 'flags': [...]}.
     step = {'err': kind} | {'changed': [[idx, observables, wf failures, extras failures]], 'alias': [idx…]}."""
     pool = [gen.mk_object(sp, o) for o in s['pool']]
     res = {'init': [[wf_real(o), _extras(sp, o) if with_extras else []] for o in pool], 'steps': [], 'flags': []}
     snaps = [_observables(o) for o in pool]
+    res['pre'] = []
     for ins in s['ops']:
         fl = _flags_before(sp, pool, ins)
         res['flags'].append(fl)
+        res['pre'].append(_pre_info(pool, ins))
         try:
             changed = _apply_instr(sp, pool, ins)
         except Exception as e:  # noqa: BLE001 - the class is the observable
@@ -965,7 +997,11 @@ def _focus_cases(rng):
         # periodic insertion into a basis with n < p + k functions
         out.append({'kind': 'hist', 'pool': [curve(2, [-3, 0, 3, 6], 0)], 'ops': [{'op': 'insert', 'i': 0, 'dir': 0, 'refs': [['m', 0, 0.5]]}]})
         out.append({'kind': 'hist', 'pool': [curve(3, [-2, -1, 0, 1, 2, 3, 4], 1)], 'ops': [{'op': 'split', 'i': 0, 'dir': 0, 'refs': [['m', 0, 0.5]]}]})
-    # clean references
+    # clean references: append / make_splines_identical of curves with different orders (Curve.raise_order inside)
+    out.append({'kind': 'hist', 'pool': [curve(2, [0, 0, 1, 2, 2]), curve(3, [0, 0, 0, 1, 3, 3, 3], dim=3, rational=True)],
+                'ops': [{'op': 'append', 'i': 0, 'j': 1}, {'op': 'clone', 'i': 1}, {'op': 'identical', 'i': 0, 'j': 1, 'dir': -1}]})
+    out.append({'kind': 'hist', 'pool': [curve(4, [0, 0, 0, 0, 2, 4, 4, 4, 4]), curve(2, [1, 1, 1.5, 3, 3])],
+                'ops': [{'op': 'identical', 'i': 0, 'j': 1, 'dir': 0}, {'op': 'append', 'i': 1, 'j': 0}]})
     out.append({'kind': 'hist', 'pool': [curve(4, [0, 0, 0, 0, 1, 2, 3, 4, 5, 5, 5, 5], rational=True)],
                 'ops': [{'op': 'makeper', 'i': 0, 'c': 2, 'dir': 0}, {'op': 'lowerper', 'i': 1, 't': 0, 'dir': 0},
                         {'op': 'reverse', 'i': 1, 'dir': 0}, {'op': 'split', 'i': 1, 'dir': 0, 'refs': [['m', 1, 0.5]]}]})
@@ -1341,7 +1377,9 @@ def tags(s, res):
     if isinstance(iv, dict):
         done = 0
         pool = len(s['pool'])
-        for ins, st in zip(s['ops'], iv['steps']):
+        for n_, (ins, st) in enumerate(zip(s['ops'], iv['steps'])):
+            if 'err' not in st and n_ < len(iv.get('pre', [])):
+                t.update(iv['pre'][n_])
             if 'err' in st:
                 t.add('err:' + st['err'])
                 t.add('raises=' + ins['op'])
